@@ -24,7 +24,7 @@ ASSUMPTIONS = [
     "known finding nsmap-member-order-only: a reloaded child whose map equals its parent's adopts the parent's key order; accepted only "
     "when both texts parse to equal objects and every difference is the member order of an 'nsmap' object",
 ]
-REQUIRED = ["vocabulary_sweep_trees", "trees_with_ids_that_are_not_strings", "loads_after_in_place_edit_of_an_earlier_load", "saved_again_after_in_place_edits", "aliasing_checks", "trees_with_clark_extras_key", "roundtrips", "legacy_roundtrips", "upgrades", "trees_with_tail", "trees_with_extras", "trees_with_prefix", "trees_with_nested_nsmap",
+REQUIRED = ["root_sweep_trees", "vocabulary_sweep_trees", "trees_with_ids_that_are_not_strings", "loads_after_in_place_edit_of_an_earlier_load", "saved_again_after_in_place_edits", "aliasing_checks", "trees_with_clark_extras_key", "roundtrips", "legacy_roundtrips", "upgrades", "trees_with_tail", "trees_with_extras", "trees_with_prefix", "trees_with_nested_nsmap",
             "text_identical"]
 EXHAUSTIVE = {"quick": False, "thorough": False}
 
@@ -120,6 +120,10 @@ def judge(ctx, t, origin, history=None):
         ctx.count("precondition_skipped")
         return
     nodes = snapshot.walk(t)
+    if any(not isinstance(k, str) for n in nodes for k in n.nsmap):
+        # a default-namespace entry (key None) is not a prefix and has no spelling as a JSON member name: outside the quantifier
+        ctx.count("precondition_skipped_default_namespace")
+        return
     for n in nodes:
         if n.tail is not None:
             ctx.count("trees_with_tail"); break
@@ -277,6 +281,24 @@ def vocabulary_content_sweep(ctx):
         judge(ctx, root, "vocabulary sweep")
         ctx.count("vocabulary_sweep_trees")
         emlkit.discard(root)
+    # every element as the root of the saved document, with and without a prefix, the prefix declared or not (a package put together
+    # through the API with only node.prefix set): what is loaded is what was saved
+    maps = ({}, {"xsi": "http://www.w3.org/2001/XMLSchema-instance"}, {"eml": "https://eml.ecoinformatics.org/eml-2.2.0"},
+            {"stmml": "http://www.xml-cml.org/schema/stmml-1.2"}, {None: "https://eml.ecoinformatics.org/eml-2.2.0"})
+    for e in mrule.node_names():
+        prefixes = [None, "eml", "stmml", "xsi", "xml", ""] if e in ("eml", "dataset", "unit", "unitList", "metadata", "additionalMetadata", "access") else [None, "eml"]
+        for px in prefixes:
+            for m in maps:
+                root = Node(e)
+                root.prefix = px
+                for k, v in m.items():
+                    root.add_namespace(k, v)
+                kid = Node("dataset" if e == "eml" else "verifKid", content="k")
+                kid.prefix = px
+                root.add_child(kid)
+                judge(ctx, root, f"root sweep: <{e}> prefix {px!r}, declared {sorted(map(str, m))}")
+                ctx.count("root_sweep_trees")
+                emlkit.discard(root)
     for ids in ([17, 18, 19, 20], [0, -1, 2.5, True], ["17", 17, "0017", "urn:uuid:x"]):
         root = Node("dataset", id=ids[0])
         a = Node("title", id=ids[1], content="t")
